@@ -129,9 +129,17 @@ func newWorld(src string, n, kt, t, p int, msg []byte) *world {
 		w.secs, w.pubs = append(w.secs, s), append(w.pubs, ed.Point().Mul(s, nil))
 	}
 	var x, k *big.Int
+	ktR := kt
+	if strings.HasPrefix(src, "poly:one-time-threshold") {
+		// long-term and one-time keys from DKG runs with different thresholds
+		var d int
+		fmt.Sscanf(src, "poly:one-time-threshold%d", &d)
+		ktR = kt + d
+		src = "poly"
+	}
 	w.long, x = mkShares(ed, src, "long", n, kt)
-	w.rnd, k = mkShares(ed, src, "random", n, kt)
-	w.rnd2, _ = mkShares(ed, src, "random-other-session", n, kt)
+	w.rnd, k = mkShares(ed, src, "random", n, ktR)
+	w.rnd2, _ = mkShares(ed, src, "random-other-session", n, ktR)
 	w.pub = w.long[0].commits[0]
 	// reference signature: R || (k + H(R,A,m) x)
 	R := w.rnd[0].commits[0]
@@ -202,7 +210,7 @@ func newWorld(src string, n, kt, t, p int, msg []byte) *world {
 		w.names = append(w.names, k)
 	}
 	sort.Strings(w.names)
-	w.names = append([]string{"own"}, w.names...)
+	w.names = append([]string{"own", "signature?"}, w.names...)
 	return w
 }
 
@@ -242,6 +250,19 @@ func Run(c *vf.Check) {
 			}
 		}
 	}
+	// long-term and one-time keys of different thresholds (signing threshold = the larger one)
+	for _, cfg := range [][3]int{{4, 3, -1}, {4, 2, +1}, {3, 2, +1}} { // n, long-term threshold, one-time threshold - long-term threshold
+		n, kt, d := cfg[0], cfg[1], cfg[2]
+		t := kt
+		if d > 0 {
+			t = kt + d
+		}
+		for _, p := range []int{0, n - 1} {
+			p := p
+			src := fmt.Sprintf("poly:one-time-threshold%+d", d)
+			jobs = append(jobs, func() { explore(c, src, n, kt, t, p, []byte("c12 message"), true) })
+		}
+	}
 	// larger groups (the statement quantifies n up to 7): the same exploration over a reduced event menu
 	bigNs := []int{5, 7}
 	if c.Thorough() {
@@ -262,7 +283,7 @@ func Run(c *vf.Check) {
 		}
 	}
 	vf.Parallel(len(jobs), func(i int) { jobs[i]() })
-	c.Finish("engine S (explicit-state BFS, successor = replay on a fresh DSS object, merged on the model's accepted set + EnoughPartialSig + per-signer delivery counts (capped at 2) + order of own PartialSig() and the echo of the own partial): n=3,4 (thorough ..5), every 2<=t<=n, at every participant (n=4: first and last) - and n=5,7 (thorough 6,7) with t in {2, n/2+1, n} (thorough: every t, first and last participant) over a reduced event menu {own, valid partial of every other signer (again = duplicate), echo of the own partial, value+1 / index n / other session by the next signer} to depth t+1, second deliveries told apart for one signer -, keys from seeded polynomials (also with a key threshold below the signing threshold) and (n=3; thorough also 4, 5) from the Pedersen, Pedersen fast-sync and Rabin DKG implementations, messages of 0, 11 and 125 bytes: all histories up to depth n+2 over {own PartialSig(), per other signer: valid partial, value+1 re-signed, signature bit-flipped; own partial echoed back; partial of another session, for another message, with replaced session id, with index n, n+1, 2^32-1 and the receiver's own index}. "+
+	c.Finish("engine S (explicit-state BFS, successor = replay on a fresh DSS object, merged on the model's accepted set + EnoughPartialSig + per-signer delivery counts (capped at 2) + order of own PartialSig() and the echo of the own partial): n=3,4 (thorough ..5), every 2<=t<=n, at every participant (n=4: first and last) - and n=5,7 (thorough 6,7) with t in {2, n/2+1, n} (thorough: every t, first and last participant) over a reduced event menu {own, valid partial of every other signer (again = duplicate), echo of the own partial, value+1 / index n / other session by the next signer} to depth t+1, second deliveries told apart for one signer -, keys from seeded polynomials (also with a key threshold below the signing threshold, and with long-term and one-time keys of different thresholds); Signature() polled in the middle of a history as an event of its own and the returned slice edited by the caller and (n=3; thorough also 4, 5) from the Pedersen, Pedersen fast-sync and Rabin DKG implementations, messages of 0, 11 and 125 bytes: all histories up to depth n+2 over {own PartialSig(), per other signer: valid partial, value+1 re-signed, signature bit-flipped; own partial echoed back; partial of another session, for another message, with replaced session id, with index n, n+1, 2^32-1 and the receiver's own index}. "+
 		"Oracle after every transition: ProcessPartialSig succeeds exactly for a first valid partial of this session; EnoughPartialSig <=> |accepted| >= t; Signature() errors below t and otherwise returns exactly R || (k + H(R,A,m) x) computed with math/big from the polynomials, which verifies under dss.Verify, eddsa.Verify and crypto/ed25519 - identical in every state and at every participant. "+
 		"non-trivial = histories of length >= 2 reaching a new accepted set",
 		[]string{"distributed keys: (share, commitment) pairs of seeded polynomials for every n, t; for the thresholds the DKGs accept additionally the outputs of all-honest runs of the real Pedersen (regular and fast-sync) and Rabin DKG code, the reference secret then interpolated in math/big from the shares", "state merging assumes the accepted set determines future behaviour"}, nil)
@@ -308,10 +329,28 @@ func explore(c *vf.Check, src string, n, kt, t, p int, msg []byte, large bool) {
 					return
 				}
 				acc := map[int]bool{}
+				askedEarly := false
 				for hi, ev := range hist {
 					last := hi == len(hist)-1
 					var perr error
 					expect := false
+					if ev == "signature?" {
+						// the caller polls for the signature in the middle of the collection: right answer now, no effect later
+						sg, serr := d.Signature()
+						if len(acc) < t && serr == nil {
+							x.Failf(pk+"/signature-below-t", "%s: a signature is produced from %d < t partials (asked in the middle)", id, len(acc))
+						}
+						if len(acc) >= t && (serr != nil || !bytes.Equal(sg, w.wantSig)) {
+							x.Failf(pk+"/signature-refused", "%s: Signature() asked in the middle with %d >= t accepted partials: %v / other bytes", id, len(acc), serr)
+						}
+						if len(acc) < t {
+							askedEarly = true
+						}
+						if len(sg) > 0 {
+							sg[0] ^= 0xff // the returned slice is the caller's
+						}
+						continue
+					}
 					if ev == "own" {
 						_, perr = d.PartialSig()
 						expect = true
@@ -370,6 +409,11 @@ func explore(c *vf.Check, src string, n, kt, t, p int, msg []byte, large bool) {
 						if !bytes.Equal(sig, w.wantSig) {
 							x.Failf(pk+"/signature-differs", "%s: signature differs from R || (k + H(R,A,m)x)", id)
 						}
+						sig[len(sig)-1] ^= 0x01 // the caller edits the slice it was given; the next answer is unaffected
+						if again, err := d.Signature(); err != nil || !bytes.Equal(again, w.wantSig) {
+							x.Failf(pk+"/signature-differs", "%s: Signature() asked again after the caller edited the returned slice: %v / other bytes", id, err)
+						}
+						sig[len(sig)-1] ^= 0x01
 						pb, _ := w.pub.MarshalBinary()
 						if dss.Verify(w.pub, msg, sig) != nil || eddsa.Verify(w.pub, msg, sig) != nil || !ed25519.Verify(pb, msg, sig) {
 							x.Failf(pk+"/signature-invalid", "%s: the combined signature does not verify as an ordinary EdDSA signature", id)
@@ -407,7 +451,7 @@ func explore(c *vf.Check, src string, n, kt, t, p int, msg []byte, large bool) {
 				for i := 0; i < n; i++ {
 					cs = append(cs, fmt.Sprint(cnt[i]))
 				}
-				key = fmt.Sprint(as, enough, own, cs)
+				key = fmt.Sprint(as, enough, own, cs, askedEarly)
 				c.Class(fmt.Sprintf("dss/enough=%v", enough), func() any { return id })
 			})
 			trans++
